@@ -183,6 +183,14 @@ class ResolverMixin:  # pylint: disable=too-few-public-methods
                                 "{3!A} without override.",
                                 type_str, obj_name, new_class.classname,
                                 superclass.classname))
+                # Parameters have no override concept: the parameter of the
+                # overriding method is resolved against the same-named
+                # parameter of the overridden method.
+                self._resolve_qualifiers(new_obj.qualifiers,
+                                         superclass_objects[obj_name].qualifiers,
+                                         new_class, superclass, obj_name,
+                                         type_str, qualifier_store,
+                                         propagate=True)
                 continue
 
             # process object override
@@ -306,6 +314,12 @@ class ResolverMixin:  # pylint: disable=too-few-public-methods
                                  new_obj.name, type_str,
                                  qualifier_store,
                                  propagate=propagated)
+        # Parameters of a newly introduced method: set the flavor defaults
+        # of their qualifiers so that they propagate to overriding methods.
+        if isinstance(new_obj, CIMMethod) and not propagated:
+            for param in new_obj.parameters.values():
+                for qual in param.qualifiers.values():
+                    self._init_qualifier(qual, qualifier_store)
 
     def _resolve_qualifiers(self, new_quals, inherited_quals, new_class,
                             super_class, obj_name, obj_type, qualifier_store,
